@@ -36,6 +36,10 @@ fn module(name: &str, body: &str) -> String {
     format!("{name} DEFINITIONS AUTOMATIC TAGS ::= BEGIN\n{body}END\n")
 }
 
+fn module_h(name: &str, header: &str, body: &str) -> String {
+    format!("{name} DEFINITIONS {header} ::= BEGIN\n{body}END\n")
+}
+
 const COMP_TYPES: [&str; 6] = ["INTEGER", "BOOLEAN", "UTF8String", "NULL", "OCTET STRING", "INTEGER (0..7)"];
 
 /// names that sort before / after anything else of the module
@@ -212,10 +216,12 @@ fn gen_parameterized(rng: &mut Rng, k: usize) -> Pair {
             members.push(format!("x{i} T{i}"));
             members.push(format!("l{i} SEQUENCE OF T{i}"));
         } else {
-            members.push(format!("y{i} INTEGER (0..n{i})"));
+            members.push(format!("y{i} [{}] INTEGER (0..n{i})", 10 + i));
         }
     }
-    members.push("fixed BOOLEAN".into());
+    // tags without IMPLICIT / EXPLICIT: the module default decides, in the instance as in the hand-expanded type
+    members.push("fixed [7] BOOLEAN".into());
+    members.push("nested [8] SEQUENCE { deep [0] NULL, more [1] OCTET STRING OPTIONAL }".into());
     let body = format!("SEQUENCE {{ {} }}", members.join(", "));
     let mut sug = format!("{tpl} {{ {} }} ::= {body}\n", params.join(", "));
     let mut exp = String::new();
@@ -242,7 +248,8 @@ fn gen_parameterized(rng: &mut Rng, k: usize) -> Pair {
         lines.push(first);
         sug = lines.join("\n") + "\n";
     }
-    Pair { kind: format!("parameterized:{n_params}params"), sugared: module("Sug", &sug), expanded: module("Sug", &exp), targets, env: vec![] }
+    let header = *rng.pick(&["AUTOMATIC TAGS", "EXPLICIT TAGS", "IMPLICIT TAGS", "EXPLICIT TAGS EXTENSIBILITY IMPLIED"]);
+    Pair { kind: format!("parameterized:{n_params}params"), sugared: module_h("Sug", header, &sug), expanded: module_h("Sug", header, &exp), targets, env: vec![] }
 }
 
 fn gen_selection(rng: &mut Rng, k: usize) -> Pair {
